@@ -15,7 +15,7 @@
 //   readonly-modified-grid         a read-only command leaves the grid file byte-identical
 // Known-finding classes are excluded by construction through ctx.excl(<id>) (ids in the table below); with the exclusion off
 // (id not listed in known_findings.json, or --no-exclude) the offending shape is generated and reported.
-#include "c16_io.hpp"
+#include "refmodel/c16_io.hpp"
 
 namespace vf {
 namespace {
@@ -92,7 +92,7 @@ struct Script {
         v.of = (m == 0 || m == 1); v.print = (m == 1 || m == 2);
     }
     static Mat row_of_ints(const std::vector<int> &w) { Mat m; m.rows = 1; m.cols = (int)w.size(); for (int x : w) m.v.push_back((double)x); return m; }
-    double fl(double x) { return ctx.excl(K_FLOAT) ? (double)(float)x : x; }   // known finding: options parsed in single precision
+    double fl(double x) { double f = (double)(float)x; if (f == x) return x; return ctx.excl(K_FLOAT) ? f : x; }   // known finding: options parsed in single precision (the text passed is the 17-digit form of the returned value)
 
     // ---------------------------------------------------------------- documented API sequence of the make commands
     static void api_make(TasmanianSparseGrid &g, const GridSpec &sp, int depth, int outs, const std::string &customfile) {
@@ -204,7 +204,7 @@ struct Script {
         }
         VF_REQUIRE("C16.rejects-documented-input", r.kind != RK_REJECT, "`tasgrid " << cmdline << "` exits with status " << r.code << " although the options follow the help text and the API sequence succeeds; stderr: " << tail(r.err) << " stdout: " << tail(r.out.substr(0, 200)));
         VF_REQUIRE("C16.tool-aborts", r.kind != RK_ABORT, "`tasgrid " << cmdline << "` dies of an uncaught exception although the API sequence succeeds; stderr: " << tail(r.err));
-        n_accepted++; lab("cmd:" + v.lname); lab(v.ascii ? "fmt:ascii" : "fmt:binary"); ctx.count("accepted");
+        n_accepted++; lab("cmd:" + (v.lname == "getneededpoints" ? std::string("getneeded") : v.lname)); lab(v.ascii ? "fmt:ascii" : "fmt:binary"); ctx.count("accepted");
         for (auto &f : v.files) lab(f.binary ? "in:binary-matrix" : "in:ascii-matrix");
         if (use_short) lab("name:short");
         // ---- numerical output
